@@ -271,6 +271,13 @@ type Store struct {
 	// StrictJWTProfileScopes makes ValidateJWTProfileScopes refuse (invalid_scope) a request naming a scope outside
 	// KnownScopes instead of silently dropping it; off by default.
 	StrictJWTProfileScopes bool
+	// StrictClientCredentialsScopes makes ClientCredentialsTokenRequest refuse (invalid_scope) a scope outside
+	// KnownScopes instead of silently dropping it; off by default.
+	StrictClientCredentialsScopes bool
+	// RefuseClaimsFor names a user whose claims the storage withholds: SetUserinfoFromScopes and
+	// GetPrivateClaimsFromScopes answer access_denied for that user id (a storage-side rejection that is not a
+	// fault: journaled with Err, Fault unset); empty = never.
+	RefuseClaimsFor string
 	// AliasRefresh makes RefreshTokenRequest.SetCurrentScopes write through to the stored refresh token (the
 	// example storage's request object aliases its stored token); off by default.
 	AliasRefresh bool
@@ -1034,9 +1041,14 @@ func (s *Store) fillUser(ui *oidc.UserInfo, userID string, scopes []string) {
 func (s *Store) SetUserinfoFromScopes(ctx context.Context, ui *oidc.UserInfo, userID, clientID string, scopes []string) error {
 	s.mu.Lock()
 	defer s.mu.Unlock()
-	_, ferr := s.enter("SetUserinfoFromScopes", userID, clientID, strings.Join(scopes, " "), nil)
+	idx, ferr := s.enter("SetUserinfoFromScopes", userID, clientID, strings.Join(scopes, " "), nil)
 	if ferr != nil {
 		return ferr
+	}
+	if s.RefuseClaimsFor != "" && userID == s.RefuseClaimsFor {
+		err := oidc.ErrAccessDenied().WithDescription("vstore: claims of this user are withheld")
+		s.leave(idx, "", err)
+		return err
 	}
 	s.fillUser(ui, userID, scopes)
 	return nil
@@ -1097,9 +1109,14 @@ func (s *Store) SetIntrospectionFromToken(ctx context.Context, resp *oidc.Intros
 func (s *Store) GetPrivateClaimsFromScopes(ctx context.Context, userID, clientID string, scopes []string) (map[string]any, error) {
 	s.mu.Lock()
 	defer s.mu.Unlock()
-	_, ferr := s.enter("GetPrivateClaimsFromScopes", userID, clientID, strings.Join(scopes, " "), nil)
+	idx, ferr := s.enter("GetPrivateClaimsFromScopes", userID, clientID, strings.Join(scopes, " "), nil)
 	if ferr != nil {
 		return nil, ferr
+	}
+	if s.RefuseClaimsFor != "" && userID == s.RefuseClaimsFor {
+		err := oidc.ErrAccessDenied().WithDescription("vstore: claims of this user are withheld")
+		s.leave(idx, "", err)
+		return nil, err
 	}
 	out := map[string]any{}
 	for k, v := range s.PrivateClaims {
@@ -1180,7 +1197,7 @@ func (s *Store) clientCredentials(ctx context.Context, clientID, secret string) 
 func (s *Store) clientCredentialsTokenRequest(ctx context.Context, clientID string, scopes []string) (op.TokenRequest, error) {
 	s.mu.Lock()
 	defer s.mu.Unlock()
-	_, ferr := s.enter("ClientCredentialsTokenRequest", clientID, strings.Join(scopes, " "), "", nil)
+	idx, ferr := s.enter("ClientCredentialsTokenRequest", clientID, strings.Join(scopes, " "), "", nil)
 	if ferr != nil {
 		return nil, ferr
 	}
@@ -1188,6 +1205,10 @@ func (s *Store) clientCredentialsTokenRequest(ctx context.Context, clientID stri
 	for _, sc := range scopes {
 		if slices.Contains(KnownScopes, sc) {
 			out = append(out, sc)
+		} else if s.StrictClientCredentialsScopes && sc != "" {
+			err := oidc.ErrInvalidScope().WithDescription("vstore: scope " + sc + " not allowed for this client")
+			s.leave(idx, "", err)
+			return nil, err
 		}
 	}
 	return &CCReq{ClientID: clientID, Scopes: out}, nil
